@@ -330,4 +330,34 @@ theorem decSvcParams_complete {buf : Bytes} {lim off c : Nat} {wire sorted : Lis
       .ok (sorted, { buf := buf, off := lim, lim := lim, cost := c' }) :=
   decSvcParams_of hlb hB h (lim - off + 1) c [] sorted (insertAll_eq_sorted hperm hs) (by omega)
 
+/-! ## Non-vacuity: wire order port (3), alpn (1), ipv4hint (4), unregistered key 7 with an empty value -/
+
+section Examples
+
+local macro "bdec" : tactic => `(tactic| (unfold BytesAt; decide +kernel))
+
+private def exBuf : Bytes :=
+  [0, 3, 0, 2, 1, 187, 0, 1, 0, 3, 2, 104, 50, 0, 4, 0, 8, 10, 0, 0, 1, 10, 0, 0, 2, 0, 7, 0, 0]
+
+private def exWire : List SvcParam :=
+  [.port 443, .alpn [[104, 50]], .ipv4hint [[10, 0, 0, 1], [10, 0, 0, 2]], .priv 7 []]
+private def exSorted : List SvcParam :=
+  [.alpn [[104, 50]], .port 443, .ipv4hint [[10, 0, 0, 1], [10, 0, 0, 2]], .priv 7 []]
+
+private theorem exWireAt : SvcParamsAt exBuf 29 0 exWire :=
+  .cons (.mk (len := 2) (by decide) (by bdec) (.port (by decide) (by bdec) rfl)) (by decide)
+    (.cons (.mk (len := 3) (by decide) (by bdec)
+        (.alpn (.cons (e := 13) (by decide) ⟨by decide, by decide, by bdec, by decide⟩ (by decide) (by decide) .nil)))
+      (by decide)
+      (.cons (.mk (len := 8) (by decide) (by bdec) (.ipv4hint (by decide) (by bdec) rfl)) (by decide)
+        (.cons (.mk (len := 0) (by decide) (by bdec) (.priv (by decide) (by decide) (bytesAt_nil _ _) rfl))
+          (by decide) .nil)))
+
+example : ∃ c', decSvcParams (29 - 0 + 1) { buf := exBuf, off := 0, lim := 29, cost := 0 } [] =
+    .ok (exSorted, { buf := exBuf, off := 29, lim := 29, cost := c' }) :=
+  decSvcParams_complete exWireAt (by unfold exSorted exWire; exact List.Perm.swap _ _ _)
+    (by unfold exSorted; exact ⟨by decide, by decide, by decide, trivial⟩) (by decide) (by decide +kernel)
+
+end Examples
+
 end Complete
